@@ -45,6 +45,10 @@
 #[path = "gen/ll_tn_parser.rs"] mod ll_tn_parser;
 #[path = "gen/k_ll_grammar_trait.rs"] mod k_ll_grammar_trait;
 #[path = "gen/k_ll_parser.rs"] mod k_ll_parser;
+#[path = "gen/u_ll_grammar_trait.rs"] mod u_ll_grammar_trait;
+#[path = "gen/u_ll_parser.rs"] mod u_ll_parser;
+#[path = "gen/c_lr_grammar_trait.rs"] mod c_lr_grammar_trait;
+#[path = "gen/c_lr_parser.rs"] mod c_lr_parser;
 
 use parol_runtime::{ParolError, Token, parser::parse_tree_type::TreeConstruct};
 
@@ -214,7 +218,7 @@ fn run(v: usize, input: &str) -> Run {
     match r { Ok((ok, leaves, events, shape)) => Run { ok, leaves, events, panicked: false, depth_err: false, shape }, Err(_) => Run { ok: false, leaves: vec![], events: vec![], panicked: true, depth_err: false, shape: vec![] } }
 }
 
-const CLAUSES: [(&str, &str); 15] = [
+const CLAUSES: [(&str, &str); 17] = [
     ("C01 C02 C03 C08 C13 C14 C16 C17 C19 C20", "parse does not panic"),
     ("C01 C03 C08 C13 C14 C16 C17 C20", "acceptance: success iff the input is a sentence of the toy grammar (independent reference recognizer; skipped tokens do not matter)"),
     ("C03 C13 C14 C16", "tree leaves are contiguous, in order, start at 0 and end at the input length"),
@@ -230,6 +234,8 @@ const CLAUSES: [(&str, &str); 15] = [
     ("C02", "the LL(k) parse tree is the derivation tree of the transformed grammar: every production application is one inner node whose children are that production's right-hand side in order (empty productions included)"),
     ("C16", "with automatic newline handling switched off and no newline terminal, a line break is unmatched input: in a state without %allow_unmatched the parse must fail"),
     ("C01 C13", "fourth grammar (lookaheads written in another literal kind than their terminal; two groups under one left-hand side): success iff the reference tokenization has no error token and is a sequence of pairs (Int | Dot)(If | Id); the tree leaves equal the reference tokenization (longest match among the terminals whose lookahead condition holds, first declared wins ties)"),
+    ("C16", "fifth grammar (%allow_unmatched in the global section only, a second scanner state without it): the parse fails iff a character is unmatched in the state WITHOUT allow-unmatched; on success the tree leaves tile the input (unmatched text of the allowing state is kept)"),
+    ("C03", "sixth grammar (LALR(1), clipped terminals, left recursion): success iff the input is `[ x {, x} ]`; the tree has exactly one top node, List, and its leaves tile the input; every reduction is reported once in the order of a rightmost derivation in reverse"),
 ];
 /// independent recognizer of Start: { Item }; Item: a | b | # | a ; | q r s t | q u
 fn is_item_list(t: &[u16]) -> bool {
@@ -380,6 +386,93 @@ fn check4(input: &str) -> Option<usize> {
     if ok {
         if leaves.len() != want.len() { return Some(14); }
         for (l, w) in leaves.iter().zip(&want) { if l.ty != w.ty || l.start != w.start || l.end != w.end { return Some(14); } }
+    }
+    None
+}
+mod u_ll_grammar {
+    use crate::u_ll_grammar_trait::ULlGrammarTrait;
+    #[derive(Default)]
+    pub struct ULlGrammar<'t> { _p: std::marker::PhantomData<&'t ()> }
+    impl<'t> ULlGrammarTrait<'t> for ULlGrammar<'t> {}
+}
+// ================= fifth toy grammar: global %allow_unmatched, strict state BLK entered by `[` and left by `]` =================
+const PIECES5: [&str; 6] = ["a", "b", "[", "]", "?", " "];
+/// reference: in INITIAL `a` and `[` are terminals and everything else (but blanks) is unmatched text, which is allowed there;
+/// in BLK `b` and `]` are terminals and every other character (but blanks) is unmatched - BLK does not allow that
+fn g5_accepts(s: &str) -> bool {
+    let mut blk = false;
+    for c in s.chars() {
+        if c == ' ' || c == '\t' || c == '\n' { continue; }
+        if !blk { if c == '[' { blk = true; } } else if c == ']' { blk = false; } else if c != 'b' { return false; }
+    }
+    true
+}
+/// clause 15 only (and "does not panic")
+fn check5(input: &str) -> Option<usize> {
+    let inp = input.to_string();
+    let r = std::panic::catch_unwind(move || {
+        let mut col = Collector::default();
+        let mut g = u_ll_grammar::ULlGrammar::default();
+        let ok = u_ll_parser::parse_into(&inp, &mut col, "x", &mut g).is_ok();
+        (ok, col.leaves)
+    });
+    let (ok, leaves) = match r { Err(_) => return Some(0), Ok(x) => x };
+    if ok != g5_accepts(input) { return Some(15); }
+    if ok {
+        let mut pos = 0;
+        for l in &leaves { if l.start != pos || l.end < l.start || input.get(l.start..l.end) != Some(l.text.as_str()) { return Some(15); } pos = l.end; }
+        if pos != input.len() { return Some(15); }
+    }
+    None
+}
+mod c_lr_grammar {
+    use crate::c_lr_grammar_trait::{CLrGrammarTrait, List, Items, Item};
+    use parol_runtime::Result;
+    #[derive(Default)]
+    pub struct CLrGrammar<'t> { pub events: Vec<char>, _p: std::marker::PhantomData<&'t ()> }
+    impl<'t> CLrGrammarTrait<'t> for CLrGrammar<'t> {
+        fn list(&mut self, _x: &List<'t>) -> Result<()> { self.events.push('L'); Ok(()) }
+        fn items(&mut self, _x: &Items<'t>) -> Result<()> { self.events.push('S'); Ok(()) }
+        fn item(&mut self, _x: &Item<'t>) -> Result<()> { self.events.push('i'); Ok(()) }
+    }
+}
+// ================= sixth toy grammar (LALR(1)): List: '['^ Items ']'^; Items: Item | Items ','^ Item; Item: 'x' =================
+const PIECES6: [&str; 6] = ["[", "]", "x", ",", " ", "?"];
+/// number of items of the sentence `[ x {, x} ]` (blanks ignored), None if the input is not a sentence
+fn g6_items(s: &str) -> Option<usize> {
+    let sig: Vec<char> = s.chars().filter(|c| *c != ' ' && *c != '\t' && *c != '\n').collect();
+    if sig.len() < 3 || sig[0] != '[' || sig[sig.len() - 1] != ']' { return None; }
+    let inner = &sig[1..sig.len() - 1];
+    if inner.len() % 2 != 1 { return None; }
+    for (i, c) in inner.iter().enumerate() { if *c != (if i % 2 == 0 { 'x' } else { ',' }) { return None; } }
+    Some((inner.len() + 1) / 2)
+}
+/// clause 16 only (and "does not panic")
+fn check6(input: &str) -> Option<usize> {
+    let inp = input.to_string();
+    let r = std::panic::catch_unwind(move || {
+        let mut col = Collector::default();
+        let mut g = c_lr_grammar::CLrGrammar::default();
+        let ok = c_lr_parser::parse_into(&inp, &mut col, "x", &mut g).is_ok();
+        (ok, col.leaves, col.shape, g.events)
+    });
+    let (ok, leaves, shape, events) = match r { Err(_) => return Some(0), Ok(x) => x };
+    let want = g6_items(input);
+    if ok != want.is_some() { return Some(16); }
+    if let Some(n) = want {
+        let mut pos = 0;
+        for l in &leaves { if l.start != pos || l.end < l.start || input.get(l.start..l.end) != Some(l.text.as_str()) { return Some(16); } pos = l.end; }
+        if pos != input.len() { return Some(16); }
+        // children of the global root that are non-terminals: exactly one, List
+        let mut depth = 0i64; let mut tops: Vec<String> = vec![];
+        for e in &shape { if e.starts_with('<') { if depth == 1 { tops.push(e[1..].to_string()); } depth += 1; } else if e == ">" { depth -= 1; } }
+        if tops != vec!["List".to_string()] { return Some(16); }
+        // rightmost derivation in reverse: Item, Items, then (Item, Items) per further element, finally List; the generated
+        // adapter calls the user action of a production when it is reduced
+        let mut exp: Vec<char> = vec![];
+        for _ in 0..n { exp.push('i'); exp.push('S'); }
+        exp.push('L');
+        if events != exp { return Some(16); }
     }
     None
 }
@@ -633,6 +726,30 @@ fn main() {
                 if p.len() < maxlen + 1 { for i in 0..PIECES3.len() { let mut q = p.clone(); q.push(i); stack.push(q); } }
             }
         }
+        // sixth grammar (C03): inputs of up to maxlen + 2 pieces
+        if prop == "C03" || prop == "all" {
+            let mut stack: Vec<Vec<usize>> = vec![vec![]];
+            while let Some(p) = stack.pop() {
+                let input: String = p.iter().map(|i| PIECES6[*i]).collect();
+                cases += 1;
+                PROGRESS.fetch_add(1, std::sync::atomic::Ordering::Relaxed);
+                if let Ok(mut c) = CURRENT.lock() { *c = format!("{{\"g\":6,\"v\":0,\"chars\":[{}]}}", esc(&input)); }
+                if let Some(ci) = check6(&input) { if first[ci].is_none() { first[ci] = Some(format!("{{\"g\":6,\"v\":0,\"chars\":[{}]}}", esc(&input))); } }
+                if p.len() < maxlen + 2 { for i in 0..PIECES6.len() { let mut q = p.clone(); q.push(i); stack.push(q); } }
+            }
+        }
+        // fifth grammar (C16): inputs of up to maxlen + 1 pieces
+        if prop == "C16" || prop == "all" {
+            let mut stack: Vec<Vec<usize>> = vec![vec![]];
+            while let Some(p) = stack.pop() {
+                let input: String = p.iter().map(|i| PIECES5[*i]).collect();
+                cases += 1;
+                PROGRESS.fetch_add(1, std::sync::atomic::Ordering::Relaxed);
+                if let Ok(mut c) = CURRENT.lock() { *c = format!("{{\"g\":5,\"v\":0,\"chars\":[{}]}}", esc(&input)); }
+                if let Some(ci) = check5(&input) { if first[ci].is_none() { first[ci] = Some(format!("{{\"g\":5,\"v\":0,\"chars\":[{}]}}", esc(&input))); } }
+                if p.len() < maxlen + 1 { for i in 0..PIECES5.len() { let mut q = p.clone(); q.push(i); stack.push(q); } }
+            }
+        }
         // fourth grammar (C01, C13): inputs of up to maxlen + 1 pieces
         if prop == "C01" || prop == "C13" || prop == "all" {
             let mut stack: Vec<Vec<usize>> = vec![vec![]];
@@ -671,6 +788,14 @@ fn main() {
             let input: String = cs.split(|c: char| !c.is_ascii_digit()).filter(|x| !x.is_empty()).map(|x| char::from_u32(x.parse().unwrap()).unwrap()).collect();
             println!("input {:?} with the LL(k) parser of grammar 3 (%auto_newline_off)", input);
             match check3(&input) { Some(ci) => { println!("REPRODUCED on the real crates: violated `{}`", CLAUSES[ci].1); std::process::exit(1) } None => { println!("the recorded input satisfies all clauses on the current tree"); return; } }
+        }
+        if s.contains("\"g\":6") {
+            println!("input {:?} with the LALR(1) parser of grammar 6 (clipped terminals)", input);
+            match check6(&input) { Some(ci) => { println!("REPRODUCED on the real crates: violated `{}`", CLAUSES[ci].1); std::process::exit(1) } None => { println!("the recorded input satisfies all clauses on the current tree"); return; } }
+        }
+        if s.contains("\"g\":5") {
+            println!("input {:?} with the LL(k) parser of grammar 5 (global %allow_unmatched, strict state BLK)", input);
+            match check5(&input) { Some(ci) => { println!("REPRODUCED on the real crates: violated `{}`", CLAUSES[ci].1); std::process::exit(1) } None => { println!("the recorded input satisfies all clauses on the current tree"); return; } }
         }
         if s.contains("\"g\":4") {
             println!("input {:?} with the LL(k) parser of grammar 4 (mixed-kind lookaheads, two groups)", input);
